@@ -23,6 +23,9 @@ static Fields gen(Tape &t) {
   // with the recording manager (api 0): in a quarter of the cases the k-th allocation of the call fails once; a call
   // that then still reports success is held to the model like any other
   f.seti("fault", t.chance(3, 4) ? 0 : t.range(1, 8));
+  // ownership state of the operands (0 borrowed, 1 made owner before the call)
+  f.seti("rown", t.chance(4, 5) ? 0 : 1);
+  f.seti("bown", t.chance(4, 5) ? 0 : 1);
   return f;
 }
 
@@ -51,6 +54,9 @@ template <class A> static Verdict check_type(const Fields &f, const MUri &MB, co
   parse_via<A>(pb, PE_SINGLE_EX, widen<Ch>(f.get("base")));
   parse_via<A>(pr, PE_SINGLE_EX, widen<Ch>(f.get("ref")));
   if (pb.rc != 0 || pr.rc != 0) return Verdict::discard();
+  if (f.geti("rown")) VF_REQUIRE(A::MakeOwner(&pr.uri) == 0, "%s: uriMakeOwner(reference) failed", A::name());
+  if (f.geti("bown")) VF_REQUIRE(A::MakeOwner(&pb.uri) == 0, "%s: uriMakeOwner(base) failed", A::name());
+  std::string frozenR = freeze<A>(pr.uri), frozenB = freeze<A>(pb.uri);
   LedgerMM mm;
   typename A::Uri d;
   memset(&d, 0xA5, sizeof d);
@@ -68,6 +74,7 @@ template <class A> static Verdict check_type(const Fields &f, const MUri &MB, co
   } cl{&d, &mm, api == 0};
   bool bit = mm.failed > 0;
   mm.reset_plan();
+  VF_REQUIRE(freeze<A>(pr.uri) == frozenR && freeze<A>(pb.uri) == frozenB, "%s: resolution modified one of its read-only operands", A::name());
   if (bit && rc != 0) {
     VF_REQUIRE(rc == URI_ERROR_MALLOC || (m.rc != 0 && rc == URI_ERROR_ADDBASE_REL_BASE), "%s: allocation %d failed but rc=%d", A::name(), fault, rc);
     stats().hit("resolution_ran_out_of_memory");
@@ -180,6 +187,7 @@ static Verdict enumerate(int tier, int shard, int nshards, Fields *failing) {
     Fields f;
     f.set("base", d.bases[(size_t)(i / 2 / nr)]); f.set("ref", d.refs[(size_t)(i / 2 % nr)]);
     f.seti("opt", (long long)(i & 1)); f.seti("api", (long long)(i % 3)); f.seti("kind", 9); f.seti("fault", 0);
+    f.seti("rown", (long long)((i / 2) % 5 == 0)); f.seti("bown", (long long)((i / 2) % 7 == 0));
     return f;
   }, failing);
 }
